@@ -11,6 +11,8 @@ structure DS where
   h2a : HashMap Nat Nat := {}
   a2h : HashMap Nat Nat := {}
   last : HashMap Nat (List Tok) := {}
+  /-- differences that do not desynchronise the case (both sides panic, only the kind differs): reported, the case goes on -/
+  notes : List String := []
   deriving Inhabited
 
 abbrev M := StateT DS (Except String)
@@ -260,7 +262,9 @@ def panicName : PanicKind → String
 /-- compare a model outcome `Out (List MTok)` with the observation -/
 def cmpOut (what : String) (model : Out (List MTok)) (obs : Obs) : M Unit := do
   match model, obs with
-  | .panic k, .panic k' => if panicName k == k' then pure () else fail s!"{what}: model panics {panicName k}, observed panic {k'}"
+  | .panic k, .panic k' =>
+    if panicName k == k' then pure ()
+    else modify fun s => { s with notes := s!"{what}: model panics {panicName k}, observed panic {k'}" :: s.notes }
   | .panic k, .ok ts => fail s!"{what}: model panics {panicName k}, observed ok {ts}"
   | .ok ms, .panic k' => fail s!"{what}: model returns {ms.length} token(s), observed panic {k'}"
   | .ok ms, .ok ts => cmpToks what ms ts
